@@ -24,9 +24,12 @@ check('C13',
       '== softmax(q.k/sqrt(d)+bias) with masked logits at the fill value; one step '
       'of LSTMCell/OptimizedLSTMCell/GRUCell/SimpleCell/MGUCell == documented '
       'recurrence, NNX LSTMCell == Linen; flip_sequences/_select_last_carry for '
-      'symbolic per-row lengths (valid part exact, padding depends on padding).',
+      'symbolic per-row lengths (valid part exact, padding depends on padding); '
+      'nn.RNN flags (time_major, reverse, keep_order, return_carry at ctor/call) '
+      'with symbolic seq_lengths over a Python-loop scan stub: valid outputs and '
+      'final carry equal the loop over the valid prefix.',
       'Stepwise-decode == whole-sequence, non-interference through finfo.min '
-      'saturation, RNN/Bidirectional over nn.scan/nnx.scan need real JAX and are '
+      'saturation, Bidirectional/nnx.RNN over the real scan need real JAX and are '
       'NOT claimed; exp/sigmoid/tanh/sqrt uninterpreted; floats as reals.',
       ENGC, 'DESIGN.md §4 C13, §9.5')
 check('C14',
@@ -158,9 +161,12 @@ check('C13',
       '== softmax(q.k/sqrt(d)+bias) with masked logits at the fill value; one step '
       'of LSTMCell/OptimizedLSTMCell/GRUCell/SimpleCell/MGUCell == documented '
       'recurrence, NNX LSTMCell == Linen; flip_sequences/_select_last_carry for '
-      'symbolic per-row lengths (valid part exact, padding depends on padding).',
+      'symbolic per-row lengths (valid part exact, padding depends on padding); '
+      'nn.RNN flags (time_major, reverse, keep_order, return_carry at ctor/call) '
+      'with symbolic seq_lengths over a Python-loop scan stub: valid outputs and '
+      'final carry equal the loop over the valid prefix.',
       'Stepwise-decode == whole-sequence, non-interference through finfo.min '
-      'saturation, RNN/Bidirectional over nn.scan/nnx.scan need real JAX and are '
+      'saturation, Bidirectional/nnx.RNN over the real scan need real JAX and are '
       'NOT claimed; exp/sigmoid/tanh/sqrt uninterpreted; floats as reals.',
       ENGC, 'DESIGN.md §4 C13, §9.5')
 check('C14',
